@@ -1010,3 +1010,84 @@ func ruleCC5(c *Ctx, rule string) {
 		c.unres(rule, "range-bounds", "", "only %d range bounds built from grammar text were found (4 expected: class From/To, literal B/E)", n)
 	}
 }
+
+// ---- CC-6: Subtract never discards a range of the minuend unexamined ----
+//
+// rang3.Subtract walks the minuend `a` and the subtrahend `b`; ranges of `a` are moved onto the
+// result stack, where they are trimmed, split or removed by comparing them with `b`. A range may
+// therefore leave `a` only by being pushed onto the result in the same step. A statement that
+// shortens `a` without pushing what it removes drops code points that were never compared with
+// anything (seed C15-H skipped every a-range that merely *starts* inside the current b-range).
+// Decided structurally; what the five geometric cases then compute is not (declined part of C15).
+func ruleCC6(c *Ctx) {
+	const rule = "CC-6"
+	p := c.Prog
+	pk, fd := p.FuncDecl("internal/lexergen/rang3", "Subtract")
+	if fd == nil {
+		c.unres(rule, "rang3.Subtract", "", "function not found")
+		return
+	}
+	info := pk.TypesInfo
+	aObj := paramObj(info, fd, 0)
+	if aObj == nil {
+		c.unres(rule, "rang3.Subtract/minuend", p.Pos(fd.Pos()), "first parameter not found")
+		return
+	}
+	par := parents(fd)
+	n := 0
+	ast.Inspect(fd.Body, func(m ast.Node) bool {
+		as, ok := m.(*ast.AssignStmt)
+		if !ok || len(as.Lhs) != 1 || len(as.Rhs) != 1 || usesObj(info, as.Lhs[0]) != aObj {
+			return true
+		}
+		sl, ok := ast.Unparen(as.Rhs[0]).(*ast.SliceExpr)
+		if !ok || usesObj(info, sl.X) != aObj {
+			return true // a = Flatten(a, nil) and the like: not a removal from the front
+		}
+		n++
+		lo, isC := int64(0), sl.Low == nil
+		if sl.Low != nil {
+			lo, isC = constInt(info, sl.Low)
+		}
+		construct := fmt.Sprintf("rang3.Subtract/leaves-minuend(%s)", exprString(as.Rhs[0]))
+		if !isC || lo != 1 || sl.High != nil {
+			c.bad(rule, construct, p.Pos(as.Pos()), "the minuend is shortened by `%s`: more than the one range that was just moved to the result can be dropped", exprString(as.Rhs[0]))
+			return true
+		}
+		// the statement just before, in the same list, pushes a[0] onto the result
+		list := enclosingList(par, as)
+		pushed := false
+		for i, st := range list {
+			if st != ast.Stmt(as) || i == 0 {
+				continue
+			}
+			if es, ok := list[i-1].(*ast.ExprStmt); ok {
+				if call, ok := es.X.(*ast.CallExpr); ok && len(call.Args) >= 1 {
+					if sel, ok := call.Fun.(*ast.SelectorExpr); ok && (sel.Sel.Name == "Push" || sel.Sel.Name == "Add") {
+						if ix, ok := ast.Unparen(call.Args[0]).(*ast.IndexExpr); ok && usesObj(info, ix.X) == aObj {
+							if v, ok := constInt(info, ix.Index); ok && v == 0 {
+								pushed = true
+							}
+						}
+					}
+				}
+			}
+			if as2, ok := list[i-1].(*ast.AssignStmt); ok && len(as2.Rhs) == 1 {
+				if call, ok := as2.Rhs[0].(*ast.CallExpr); ok && builtinName(info, call) == "append" && len(call.Args) == 2 {
+					if ix, ok := ast.Unparen(call.Args[1]).(*ast.IndexExpr); ok && usesObj(info, ix.X) == aObj {
+						if v, ok := constInt(info, ix.Index); ok && v == 0 {
+							pushed = true
+						}
+					}
+				}
+			}
+		}
+		c.check(pushed, rule, construct, p.Pos(as.Pos()),
+			"the range that leaves the minuend was pushed onto the result in the statement before: it is examined against the subtrahend there",
+			"a range of the minuend is dropped without being moved to the result: its code points are lost although no range of the subtrahend was compared with it")
+		return true
+	})
+	if n < 1 {
+		c.unres(rule, "rang3.Subtract/leaves-minuend", p.Pos(fd.Pos()), "no statement taking ranges off the minuend was found")
+	}
+}
